@@ -52,9 +52,12 @@ def run(ctx):
     res = vlib.model_check(ctx, cfg, "MC_Options.tla", workers=12, env={"MENU": mpath}, timeout=3600, xmx="8g")
     subs = [schema.sub_program(md, r["st"], r["path"]) for r in res.replays]
     subs += schema.ctor_variants()
+    subs += [schema.saturate(p, False) for p in schema.ctor_variants()] + [schema.saturate(p, True) for p in schema.ctor_variants()]
     for st in md:
         for _ in range(60 if th else 12):
             subs.append(schema.random_sub(rng, md, st, rng.choice([1, 2, 4, 9, 20])))
+        subs.append(schema.saturate(schema.random_sub(rng, md, st, 12), False))
+        subs.append(schema.saturate(schema.random_sub(rng, md, st, 12), True))
     # (b) the two whole-table option builders
     tabs = tc.mc_replays(ctx, ["FADT", "TCPA_SERVER"], 3, workers=8)
     tabs += fadt_programs(rng, th)
